@@ -7,7 +7,7 @@ import fsharness as H
 
 WRITABLE = ["mem", "os", "sub-mem", "sub-os", "wrap-mem", "mount", "mount-root", "multi", "zip-w", "tar-w", "temp"]
 
-MOUNT_POINTS = {"mount": [["m1"], ["m2", "deep"]], "mount-root": [[]]}
+MOUNT_POINTS = {"mount": [["m1"], ["m2", "deep"]], "mount-root": [[]], "mount-nested": [["p", "q"], ["p"]]}
 
 
 def _comps(p):
@@ -33,10 +33,6 @@ def steer(kind, op):
         for mp in mps:
             if mp and mp[: len(cs)] == cs:  # the path is a mount point or an ancestor of one
                 return False
-    if name in ("getinfo",) and kind == "mount":
-        cs = _comps(op[1])
-        if cs in mps:
-            return False  # known finding C10: name of a mount point's info (handled by C10)
     return True
 
 
